@@ -267,7 +267,8 @@ class PowerManagingActor(Actor):  # pylint: disable=too-many-instance-attributes
                     component_ids,
                     None,
                     self._calculate_shifted_bounds(
-                        self._system_bounds[component_ids], tgt_power_shift
+                        self._system_bounds[component_ids],
+                        self._set_op_power_group.get_target_power(component_ids),
                     ),
                     must_send,
                 )
@@ -282,7 +283,8 @@ class PowerManagingActor(Actor):  # pylint: disable=too-many-instance-attributes
                     component_ids,
                     None,
                     self._calculate_shifted_bounds(
-                        self._system_bounds[component_ids], tgt_power_no_shift
+                        self._system_bounds[component_ids],
+                        self._set_power_group.get_target_power(component_ids),
                     ),
                     must_send,
                 )
@@ -297,15 +299,18 @@ class PowerManagingActor(Actor):  # pylint: disable=too-many-instance-attributes
                 component_ids,
                 None,
                 self._calculate_shifted_bounds(
-                    self._system_bounds[component_ids], tgt_power_no_shift
+                    self._system_bounds[component_ids],
+                    self._set_power_group.get_target_power(component_ids),
                 ),
                 must_send,
             )
-        if tgt_power_shift is not None and tgt_power_no_shift is not None:
-            return tgt_power_shift + tgt_power_no_shift
-        if tgt_power_shift is not None:
-            return tgt_power_shift
-        return tgt_power_no_shift
+        if tgt_power_shift is None and tgt_power_no_shift is None:
+            return None
+        # `None` only means that the target power of that group didn't change.  The
+        # power to distribute is always the sum of the current targets of both groups.
+        return (
+            self._set_op_power_group.get_target_power(component_ids) or Power.zero()
+        ) + (self._set_power_group.get_target_power(component_ids) or Power.zero())
 
     async def _send_updated_target_power(
         self,
